@@ -450,6 +450,16 @@ class Process:
     def __ne__(self, other):
         return not self == other
 
+    def __copy__(self):
+        # A copy starts its life outside any oneshot() context: it
+        # must not inherit the cache of a block it never entered,
+        # else it would keep on returning that block's values for
+        # ever (nothing would ever deactivate it).
+        new = self.__class__.__new__(self.__class__)
+        new.__dict__.update(self.__dict__)
+        new.__dict__.pop("_cache", None)
+        return new
+
     def __hash__(self):
         if self._hash is None:
             self._hash = hash(self._ident)
